@@ -73,8 +73,14 @@ def auto_discharge(site, fn, T, panic_abort):
             return x[0] == "call" and x[1] in ("zksync_concurrency::ctx::Ctx::now", "zksync_concurrency::ctx::clock::Clock::now", "time::Instant::now")
         if reading(site.terms[0]) and reading(site.terms[1]):
             return "difference of two readings of the context clock taken in this function"
-    if site.kind == "index" and t["k"] == "assert" and t["msg"].get("k") == "BoundsCheck":
-        pass
+    if site.kind == "index" and t["k"] == "assert" and t["msg"].get("k") == "BoundsCheck" and len(site.terms) > 1 and site.terms[0] is not None:
+        # slice[i]: the assert compares i with the slice's length (PtrMetadata of the slice place)
+        ln = site.terms[0]
+        recv0 = ln[2] if ln[0] == "un" and len(ln) > 2 else None
+        if recv0 is not None:
+            g = _range_loop_index(fn, T, recv0, site.terms[1]) or _range_closure_index(fn, T, recv0, site.terms[1])
+            if g:
+                return g
     if site.kind == "index" and t["k"] == "call" and len(site.terms) > 1:
         g = _guarded_index(fn, T, site.bb, site.terms[0], site.terms[1])
         if g:
@@ -482,6 +488,63 @@ def _range_loop_index(fn, T, recv, idx):
     return "index is the item of a `for i in a..N` loop with N bounded by the length of the indexed sequence" if bounded(end) else None
 
 
+RANGE_ADAPTERS = ("filter", "map", "filter_map", "for_each", "all", "any", "find", "find_map", "position", "take_while", "skip_while", "map_while", "flat_map", "inspect", "try_for_each")
+
+
+def _range_closure_index(fn, T, recv, idx):
+    """v[i] inside a closure whose argument i is the item of `(a..v.len()).<adapter>(|i| ..)`: the closure is created
+    in its parent as the argument of an iterator adapter applied directly to a Range whose end is the length of the
+    very sequence the closure captured as `v`."""
+    if fn.kind != "closure" or fn.parent is None or recv is None or idx is None:
+        return None
+    i = idx
+    while i[0] in ("deref", "ref"):
+        i = i[1]
+    if not (i[0] == "param" and i[1] == 2):
+        return None
+    r = recv
+    while r[0] in ("deref", "ref"):
+        r = r[1]
+    if r[0] != "upvar":
+        return None
+    names = [c["name"] for c in fn.captures]
+    if r[1] not in names:
+        return None
+    from engine.terms import Terms
+    P = fn.parent
+    TP = P._cache.get("_terms_for_discharge")
+    if TP is None:
+        TP = Terms(P)
+        P._cache["_terms_for_discharge"] = TP
+    for c in TP.calls():
+        if not c["q"].startswith("std::iter::Iterator::") or c["q"].rsplit("::", 1)[1] not in RANGE_ADAPTERS:
+            continue
+        a = TP.args_of(c)
+        if len(a) < 2 or a[1][0] != "closure" or a[1][1] != fn.qname:
+            continue
+        it = a[0]
+        while it[0] == "call" and it[1] == "std::iter::IntoIterator::into_iter" and it[2]:
+            it = it[2][0]
+        if it[0] != "agg" or it[1] != "std::ops::Range":
+            return None
+        end = dict(it[3]).get("end")
+        caps = a[1][2]
+        if len(caps) != len(names):
+            return None
+        bound = caps[names.index(r[1])]
+        while bound[0] in ("deref", "ref"):
+            bound = bound[1]
+        e = end
+        if e is not None and e[0] == "call" and e[1].rsplit("::", 1)[-1] == "len" and len(e[2]) == 1:
+            x = e[2][0]
+            while x[0] in ("deref", "ref"):
+                x = x[1]
+            if x == bound:
+                return "index is the item of `(a..v.len()).%s(|i| ..)` over the captured sequence v" % c["q"].rsplit("::", 1)[1]
+        return None
+    return None
+
+
 def _split_within_len(fn, T, bb, recv, mid):
     """v.split_at(m) / split_at_mut(m) with m = min(.., v.len(), ..): m <= len"""
     t = fn.blocks[bb]["t"]
@@ -582,7 +645,7 @@ def _loop_guarded_index(fn, T, bb, recv, idx):
 
 def _guarded_index(fn, T, bb, recv, idx):
     """v[i] dominated by i < v.len() (or v.len() > i)"""
-    g = _range_loop_index(fn, T, recv, idx) or _split_within_len(fn, T, bb, recv, idx) or _loop_guarded_index(fn, T, bb, recv, idx)
+    g = _range_loop_index(fn, T, recv, idx) or _range_closure_index(fn, T, recv, idx) or _split_within_len(fn, T, bb, recv, idx) or _loop_guarded_index(fn, T, bb, recv, idx)
     if g:
         return g
     if recv is None or idx is None or not _stable(T, recv, idx):
